@@ -100,6 +100,10 @@ int cp_ecmqv_key(uint8_t *key, size_t key_len, const bn_t d1, const bn_t d2,
 
 		ec_mul_sim(p, q2v, s, q1v, x);
 
+		if (ec_is_infty(p)) {
+			result = RLC_ERR;
+		}
+
 		ec_get_x(x, p);
 		/* FE2OSP: the field element has a fixed length. */
 		l = RLC_FC_BYTES;
